@@ -556,12 +556,22 @@ namespace adm {
                         const Position &position) {
       if (isSpherical(position)) {
         auto sphericalPosition = boost::get<SphericalPosition>(position);
-        parentNode.addElement(
-            sphericalPosition.get<Azimuth>(), name,
-            detail::formatMultiElementAttribute("coordinate", "azimuth"));
-        parentNode.addElement(
-            sphericalPosition.get<Elevation>(), name,
-            detail::formatMultiElementAttribute("coordinate", "elevation"));
+        auto azimuthNode = parentNode.addNode(name);
+        azimuthNode.addAttribute("coordinate", "azimuth");
+        if (sphericalPosition.has<ScreenEdgeLock>()) {
+          auto screenEdgeLock = sphericalPosition.get<ScreenEdgeLock>();
+          azimuthNode.addOptionalAttribute<HorizontalEdge>(&screenEdgeLock,
+                                                           "screenEdgeLock");
+        }
+        azimuthNode.setValue(sphericalPosition.get<Azimuth>());
+        auto elevationNode = parentNode.addNode(name);
+        elevationNode.addAttribute("coordinate", "elevation");
+        if (sphericalPosition.has<ScreenEdgeLock>()) {
+          auto screenEdgeLock = sphericalPosition.get<ScreenEdgeLock>();
+          elevationNode.addOptionalAttribute<VerticalEdge>(&screenEdgeLock,
+                                                           "screenEdgeLock");
+        }
+        elevationNode.setValue(sphericalPosition.get<Elevation>());
         parentNode.addOptionalElement<Distance>(
             &sphericalPosition, name,
             detail::formatMultiElementAttribute("coordinate", "distance"));
